@@ -250,6 +250,7 @@ def resolver_contract():
         if parts is None or resolved is None:
             return z3.BoolVal(False)
         lc.st.assume(SP.fold_defn(parts, lc.i))      # definition of the spec fold at the current prefix
+        lc.st.assume(prefix_ext(parts, lc.i))        # sequence lemma (seq_lemmas): parts[:i+1] == parts[:i] ++ [parts[i]]
         return resolved == SP.FOLD(z3.SubSeq(parts, 0, lc.i))
 
     return FnContract(
@@ -1319,10 +1320,10 @@ def seq_lemmas(repo, tier):
     import time
     out = []
     jj = z3.Int("j")
-    for sort in sorted({v[2] for v in VIEWS.values()} | {v[2] for v in NESTED_IMAGES.values()} | set(FLAT_IMAGES.values()) | {TABLE}):
-        t = z3.Const("t", z3.SeqSort(ext_sort(sort)))
+    for sort in sorted({v[2] for v in VIEWS.values()} | {v[2] for v in NESTED_IMAGES.values()} | set(FLAT_IMAGES.values()) | {TABLE}) + ["<str>"]:
+        t = z3.Const("t", z3.SeqSort(ext_sort(sort))) if sort != "<str>" else z3.Const("t", z3.SeqSort(z3.StringSort()))
         parts = prefix_ext(t, jj).children()
-        for label, goal in ((f"prefix-extension-{sort.strip('_')}", parts[0]), (f"prefix-whole-and-empty-{sort.strip('_')}", z3.And(parts[1:]))):
+        for label, goal in ((f"prefix-extension-{sort.strip('_<>')}", parts[0]), (f"prefix-whole-and-empty-{sort.strip('_<>')}", z3.And(parts[1:]))):
             t0 = time.time()
             sv = z3.Solver()
             sv.add(z3.Not(goal))
